@@ -57,6 +57,22 @@ Theorem C10_fair_continuation_completes_iter :
 Proof. intros r len ordered stop sched Hw. apply imrunp_completes; assumption. Qed.
 Print Assumptions C10_fair_continuation_completes_iter.
 
+(** ... and once the early-exit signal is out the remaining work depends on the thread bound and
+    the chunk sizes only (at most one chunk being read and one chunk held per thread), whatever
+    the source still holds -- the clause that matters for unbounded sources *)
+Theorem C10_bounded_work_after_signal_iter :
+  forall (r : Runner) (len : nat) (ordered : bool) (stop : nat -> bool) (sched sched2 : list nat),
+  runner_wf r -> iskipped (imrunp r len ordered stop nopanic sched) = true ->
+  ieffective len (match r_input_len r with Some _ => true | None => false end) ordered stop nopanic
+             (m_dospawn r) (m_nextc r) (imrunp r len ordered stop nopanic sched) sched2
+  <= 9 * m_maxt r + 3
+     + sum_list (map (fun w => 6 * icsize w + 8) (iws (imrunp r len ordered stop nopanic sched))).
+Proof.
+  intros r len ordered stop sched sched2 Hw Hsk.
+  apply imrun_after_close; [assumption|]. apply imrun_signal_closes; assumption.
+Qed.
+Print Assumptions C10_bounded_work_after_signal_iter.
+
 Theorem C10_effective_steps_bounded_iter :
   forall (r : Runner) (len : nat) (ordered : bool) (stop : nat -> bool) (sched : list nat),
   runner_wf r ->
